@@ -432,6 +432,9 @@ fn run_case(c: &Case, env: &mut Env, drv: &mut Driver, rep: &mut Report, quiet: 
             let mk0 = m.split(':').next().unwrap_or("").split(' ').next().unwrap_or("").to_string();
             if !quiet {
                 rep.branch(&format!("line:{}", mk0));
+                if m.ends_with(" ok1") {
+                    rep.branch("line:okFileLine(proved sub-grammar)");
+                }
                 if l.starts_with('!') {
                     rep.branch("line:negated");
                 }
@@ -528,6 +531,8 @@ fn run_case(c: &Case, env: &mut Env, drv: &mut Driver, rep: &mut Report, quiet: 
         paths.push(format!("({} {})", *d as u8, comps.join(" ")));
     }
     let m = drv.ask(&format!("c04.tree {} (igns {}) (paths {})", c.ci as u8, igns.join(" "), paths.join(" ")));
+    let guard = m.starts_with("g1 ");
+    let m = m.get(3..).unwrap_or("").to_string();
     let mb = m.as_bytes();
     if mb.len() != 2 * c.entries.len() {
         out.push(mk("impl_vs_model", "", TIE_WALK, format!("model reply {:?}", m)));
@@ -556,6 +561,9 @@ fn run_case(c: &Case, env: &mut Env, drv: &mut Driver, rep: &mut Report, quiet: 
         if imp != g {
             out.push(mk("impl_vs_spec", class, TIE_GIT, format!("path {:?}: ripgrep skips = {}, git ignores = {}", show(p), imp, g)));
         }
+        if guard && mm != ms {
+            out.push(mk("model_vs_spec", "", "theorem C04_partial contradicted (model vs spec under okFileLine)", format!("path {:?}: model {} spec {}", show(p), mm, ms)));
+        }
         if ms != g {
             out.push(mk("model_vs_spec", class, TIE_SPEC, format!("path {:?}: spec says ignored = {}, real git = {}", show(p), ms, g)));
         }
@@ -565,6 +573,9 @@ fn run_case(c: &Case, env: &mut Env, drv: &mut Driver, rep: &mut Report, quiet: 
             rep.nontrivial(&case);
         }
         rep.branch(&format!("tree:ignore-files:{}", c.ignores.len().min(4)));
+        if guard && !c.ignores.is_empty() {
+            rep.branch("tree:all-lines-in-proved-sub-grammar");
+        }
         if c.ci {
             rep.branch("tree:case-insensitive");
         }
